@@ -6,7 +6,7 @@ From DV Require Import Lib.Base Policy.Policy Policy.PolicyBus Spec.PolicySpec.
 Extraction Language OCaml.
 Extraction "model_policy.ml"
   rule_new rule_from_element load_policy policy_empty client_rules create_client_policy
-  optimize optimize_with catch_all_c universal
+  optimize optimize_with catch_all_c universal f3_condition
   check_can_send check_can_receive check_can_own send_toggles
   bus_init step step_with
   spec_can_send spec_can_receive spec_can_own dev_none dev_code optimizer_condition_ok rule_wf.
